@@ -109,25 +109,27 @@ def check_anomaly(ctx):
     prog = ctx.prog
     site = "verif.data.Data.get_scores"
     m = prog.module("verif.data")
-    ev = trace.trace(prog, site)
-    clim_assign = [a for a in trace.assigns(ev, "clim")]
-    ctx.need(clim_assign, "%s: the climatology operand was not found" % site)
+    # the sliced field of the first requested field, taken from the list stored in the request cache of a sliced request
+    # (result_k = X_k[np.where(valid)]): no dependence on the names of locals or on the form of the loops
+    from . import c01
+    ev = trace.trace(prog, site, env={"axis": form.apply("call:verif.axis.Time", [])})
+    st = trace.stores(ev, "self._get_scores_cache")
+    ctx.need(st, "%s: the result is not stored in the request cache" % site)
+    ph, res = c01._split_memo(st[-1]["value"])
+    ctx.need(res is not None and len(res) == 2 and isinstance(res[0], Rat) and res[0].as_atom("getitem") is not None,
+             "%s: the cached sliced result is not field[np.where(valid)]" % site)
+    final = res[0].as_atom("getitem").args[0]
     applied = form.apply("self._apply_axis", [form.apply("self._get_score", [form.apply("call:verif.field.Fcst", []),
                                                                             form.apply("len", [S("self._inputs")]) - Rat.const(1)]),
-                                              S("axis"), S("axis_index")])
-    got = [a["value"] for a in clim_assign if isinstance(a["value"], Rat) and not a["value"].is_zero()]
-    ok = bool(got) and all(v.equals(applied) for v in got)
-    ctx.ob("C14.2", site, ok, "climatology operand = Fcst of the last input through the same axis slice", loc=prog.loc(m, clim_assign[0]["node"]),
-           msg="the climatology operand is %s" % [str(v)[:200] for v in got],
-           sample={"rule": "C14.2", "operand": [str(v)[:200] for v in got]})
-    # the value of the sliced field at the end of the first unrolled iteration, decided by cases: the conditions that occur in it are
-    # fixed to the truth values of each scenario and the resulting value is compared with value -/ climatology (or the value itself)
-    currs = [a for a in trace.assigns(ev, "curr") if a["iter"] == (1,)]
-    ctx.need(len(currs) >= 2, "%s: assignments of the sliced field not found" % site)
-    base = currs[0]["value"]
-    appended = [e for e in trace.calls(ev, "scores.append") if e["iter"] == (1,) and e["args"]]
-    ctx.need(len(appended) == 1, "%s: scores.append(<sliced field>) not found in the field loop" % site)
-    final = appended[0]["args"][0]
+                                              form.apply("call:verif.axis.Time", []), S("axis_index")])
+    cands = [a for a in final.atoms(deep=True) if a.func == "self._apply_axis" and a.args and isinstance(a.args[0], Rat)
+             and "self._get_score(" in a.args[0].key() and "$input_index" in a.args[0].key()]
+    ctx.need(cands, "%s: the slice of the requested field (self._apply_axis(self._get_score(field, input_index), ...)) was not found" % site)
+    base = Rat.of_atom(max(cands, key=lambda a: len(a.key)))
+
+    class _N(object):
+        lineno = st[-1]["node"].lineno
+    currs = [{"node": st[-1]["node"]}]
     ctx.need(isinstance(base, Rat) and isinstance(final, Rat), "%s: the sliced field is not a value" % site)
     leaves = {}
     for at in final.atoms(deep=True):
@@ -140,17 +142,22 @@ def check_anomaly(ctx):
             return "subtract"
         if "$self._clim" in k and "$None" in k and "_clim_type" not in k:
             return "present"
+        cur_field = "$i#1" in k or "elem#1(" in k           # the field of the (first unrolled) iteration, by index or as element
+        if at.func in ("in", "notin") and cur_field and "call:verif.field.Fcst()" in k and "call:verif.field.Obs()" in k \
+                and isinstance(at.args[0], Rat) and ("$i#1" in at.args[0].key() or "elem#1(" in at.args[0].key()):
+            return "is_obsfcst"                              # `field in [Obs(), Fcst()]`
+        if at.func in ("cmp_eq", "cmp_ne") and "call:verif.field.Fcst()" in k and cur_field:
+            return "is_fcst"
+        if at.func in ("cmp_eq", "cmp_ne") and "call:verif.field.Obs()" in k and cur_field and "_obs_range" not in k:
+            return "is_obs"
         if at.func in ("in", "notin") and "call:verif.field.Fcst()" in k:
             return "fcst_requested"
         if at.func in ("in", "notin") and "call:verif.field.Obs()" in k:
             return "obs_requested"
-        if at.func in ("cmp_eq", "cmp_ne") and "call:verif.field.Fcst()" in k and "$i#1" in k:
-            return "is_fcst"
-        if at.func in ("cmp_eq", "cmp_ne") and "call:verif.field.Obs()" in k and "$i#1" in k and "_obs_range" not in k:
-            return "is_obs"
         return None
     kinds = {k: kind(at) for k, at in leaves.items()}
-    ctx.need({"subtract", "present", "is_fcst", "is_obs"} <= set(kinds.values()),
+    kv = set(kinds.values())
+    ctx.need({"subtract", "present"} <= kv and ({"is_fcst", "is_obs"} <= kv or "is_obsfcst" in kv),
              "%s: the conditions of the anomaly step (climatology present, field is Obs/Fcst, clim_type) were not recognised: %s" % (site, sorted(set(kinds.values()) - {None})))
 
     def resolve(value, truth):
@@ -169,10 +176,10 @@ def check_anomaly(ctx):
     for fld in ("fcst", "obs"):
         for typ in ("subtract", "divide"):
             scenarios.append(("%s field, clim_type %s" % (fld, typ),
-                              {"present": True, "is_fcst": fld == "fcst", "is_obs": fld == "obs", "fcst_requested": fld == "fcst" or None,
+                              {"present": True, "is_fcst": fld == "fcst", "is_obs": fld == "obs", "is_obsfcst": True, "fcst_requested": fld == "fcst" or None,
                                "obs_requested": fld == "obs" or None, "subtract": typ == "subtract"}, typ))
-    scenarios.append(("another field", {"present": True, "is_fcst": False, "is_obs": False, "fcst_requested": True, "obs_requested": True, "subtract": True}, None))
-    scenarios.append(("no climatology", {"present": False, "is_fcst": True, "is_obs": False, "fcst_requested": True, "obs_requested": False, "subtract": True}, None))
+    scenarios.append(("another field", {"present": True, "is_fcst": False, "is_obs": False, "is_obsfcst": False, "fcst_requested": True, "obs_requested": True, "subtract": True}, None))
+    scenarios.append(("no climatology", {"present": False, "is_fcst": True, "is_obs": False, "is_obsfcst": True, "fcst_requested": True, "obs_requested": False, "subtract": True}, None))
     for name, truth, typ in scenarios:
         truth = {k: v for k, v in truth.items() if v is not None}
         for extra in ([{}] if all(k in truth for k in ("fcst_requested", "obs_requested")) else
